@@ -196,9 +196,16 @@ func (rt *runtime) cmplEvaluateNodeForInStatement(node *nodeForInStatement) Valu
 
 	result := emptyValue
 	obj := sourceObject
+	// 12.6.4: a property of a prototype is not enumerated if it is shadowed by
+	// a property (enumerable or not) of an object nearer in the chain.
+	shadowed := map[string]bool{}
 	for obj != nil {
 		enumerateValue := emptyValue
 		obj.enumerate(false, func(name string) bool {
+			if shadowed[name] {
+				return true
+			}
+			shadowed[name] = true
 			into := rt.cmplEvaluateNodeExpression(into)
 			// In the case of: for (var abc in def) ...
 			if into.reference() == nil {
@@ -237,6 +244,10 @@ func (rt *runtime) cmplEvaluateNodeForInStatement(node *nodeForInStatement) Valu
 		if obj == nil {
 			break
 		}
+		obj.enumerate(true, func(name string) bool {
+			shadowed[name] = true
+			return true
+		})
 		obj = obj.prototype
 	}
 	return result
